@@ -318,7 +318,7 @@ func c05Pipeline(c *Ctx, p *Prog) {
 		if u, isU := sent.(*ssa.UnOp); isU && u.Op == token.MUL {
 			if ia, isIA := u.X.(*ssa.IndexAddr); isIA {
 				if call, isCall := ia.X.(*ssa.Call); isCall && strings.HasSuffix(calleeName(&call.Call), "collectEventsFromInput") {
-					if isRangeIndex(ia.Index) {
+					if isRangeIndex(ia.Index) || (isFullCountedIndex(ia.Index, call) && countsFromZeroByOne(ia.Index)) {
 						ok = true
 					}
 				}
@@ -825,4 +825,25 @@ func checkQuitAlwaysClosed(c *Ctx, p *Prog, rule string) {
 		}
 	}
 	c.Check(bad == "", rule, "tScreen:close(quit):unconditional", p.pos(site.Pos()), "close(t.quit) dominates every return of "+host.Name()+" "+bad)
+}
+
+// countsFromZeroByOne: v = phi(0, v+1), the counter of `for i := 0; ...; i++`.
+func countsFromZeroByOne(v ssa.Value) bool {
+	phi, ok := v.(*ssa.Phi)
+	if !ok || len(phi.Edges) != 2 {
+		return false
+	}
+	zero, step := false, false
+	for _, e := range phi.Edges {
+		if k, isK := constInt(e); isK && k == 0 {
+			zero = true
+			continue
+		}
+		if bo, isBO := e.(*ssa.BinOp); isBO && bo.Op == token.ADD && bo.X == ssa.Value(phi) {
+			if k, isK := constInt(bo.Y); isK && k == 1 {
+				step = true
+			}
+		}
+	}
+	return zero && step
 }
